@@ -297,7 +297,7 @@ func (c *FnCtx) ghostIntSet(st *State, name, val string) {
 	c.heapSym(st, key, "Int", 1)
 	nw := c.newHeapVersion(key)
 	c.declared[nw] = true
-		c.isMacro[nw] = true
+	c.isMacro[nw] = true
 	c.emit(fmt.Sprintf("(define-fun %s ((z Int)) Int %s)", nw, val))
 	st.heaps[key] = nw
 }
@@ -316,6 +316,7 @@ func init() {
 	}
 	externs["(hash.Hash).Sum"] = func(c *FnCtx, st *State, call *ast.CallExpr, recv *Val, args []Val) Val {
 		c.ghostIntSet(st, "sumstate", c.ghostIntGet(st, "hs"))
+		c.ghostIntSet(st, "sumcount", sx("+", c.ghostIntGet(st, "sumcount"), "1"))
 		t := c.typeOf(call)
 		out := c.freshVal(t, "sum")
 		c.ghost["lastSum"] = out
@@ -328,8 +329,26 @@ func init() {
 		return out
 	}
 	externs["io.Copy"] = func(c *FnCtx, st *State, call *ast.CallExpr, recv *Val, args []Val) Val {
+		// a copy into a hash feeds it (hs += 100) from the current file position; a copy into
+		// anything else (a file, the output) only counts as a plain copy
+		toHash := false
+		if t := c.typeOf(call.Args[0]); t != nil {
+			if n, ok := t.(*types.Named); ok && n.Obj().Pkg() != nil && n.Obj().Pkg().Path() == "hash" && n.Obj().Name() == "Hash" {
+				toHash = true
+			}
+		}
+		if !toHash {
+			c.ghostIntSet(st, "plaincopies", sx("+", c.ghostIntGet(st, "plaincopies"), "1"))
+			n := c.fresh("n", "Int")
+			c.fact(sx(">=", n, "0"))
+			return Val{K: KTuple, F: []Val{{K: KInt, S: n, T: types.Typ[types.Int64]}, {K: KIfc, S: c.fresh("err", "Ifc")}}}
+		}
 		c.ghostIntSet(st, "hs", sx("+", c.ghostIntGet(st, "hs"), "100"))
 		c.ghostIntSet(st, "copyfrom", c.ghostIntGet(st, "fpos"))
+		// reading moves the file position: it is unknown (and not the start) until the next Seek
+		after := c.fresh("posAfterCopy", "Int")
+		c.fact(sx(">", after, "0"))
+		c.ghostIntSet(st, "fpos", after)
 		n := c.fresh("n", "Int")
 		c.fact(sx(">=", n, "0"))
 		return Val{K: KTuple, F: []Val{{K: KInt, S: n, T: types.Typ[types.Int64]}, {K: KIfc, S: c.fresh("err", "Ifc")}}}
@@ -585,5 +604,21 @@ func init() {
 		n := c.fresh("n", "Int")
 		c.assume(st, sAnd(sx("<=", "0", n), sx("<=", n, p.ln())))
 		return Val{K: KTuple, F: []Val{{K: KInt, S: n, T: types.Typ[types.Int]}, {K: KIfc, S: c.fresh("err", "Ifc")}}}
+	}
+}
+
+// ioutil.TempFile: a fresh file positioned at its start.
+func init() {
+	externs["io/ioutil.TempFile"] = func(c *FnCtx, st *State, call *ast.CallExpr, recv *Val, args []Val) Val {
+		f := c.fresh("file", "Int")
+		e := c.fresh("err", "Ifc")
+		c.fact(sx(">=", f, "0"))
+		c.fact(sImp(sx("=", sx("tag", e), "0"), sx(">", f, "0")))
+		tup := c.typeOf(call).(*types.Tuple)
+		fv := Val{K: KPtr, S: f, T: tup.At(0).Type()}
+		if pt, ok := tup.At(0).Type().Underlying().(*types.Pointer); ok {
+			fv.Elem = pt.Elem()
+		}
+		return Val{K: KTuple, F: []Val{fv, {K: KIfc, S: e}}}
 	}
 }
